@@ -79,9 +79,9 @@ Proof.
   destruct (negb (cf_alg_ok a)); [apply send_status_shape|].
   assert (A : forall length,
              one_or_raise id
-               (if (if cf_block a =? 0 then length else cf_block a) <? 256 then send_status id g_SFTP_FAILURE
+               (if (if cf_block a =? 0 then length else cf_block a) <? g_CF_MIN_BLOCK then send_status id g_SFTP_FAILURE
                 else cf_loop id (cf_start a + length) (cf_start a) (cf_reads a))).
-  { intros length. destruct ((if cf_block a =? 0 then length else cf_block a) <? 256);
+  { intros length. destruct ((if cf_block a =? 0 then length else cf_block a) <? g_CF_MIN_BLOCK);
       [apply send_status_shape | apply cf_loop_shape]. }
   destruct (cf_length a =? 0); [|apply A].
   destruct (cf_stat a) as [k | | | n | n | |]; unfold send_status_desc_cb; try (left; reflexivity).
